@@ -10,7 +10,7 @@
    Part 2  ListProg : a tiny imperative language of list operations with aliasing, its concrete heap semantics
                       (fuel + oracle for every nondeterministic choice, exceptions, return, break) and the static
                       may-alias analysis `may_mutate_shared`.                                                    *)
-From Coq Require Import List Bool Arith PeanoNat.
+From Coq Require Import List Bool Arith PeanoNat NArith.
 Import ListNotations.
 
 (* ------------------------------------------------------------------------------------------------ *)
@@ -23,7 +23,7 @@ Inductive val :=
 | VOpq.               (* anything that is not a container: int, str, Sym, None, ... *)
 
 Inductive obj :=
-| ONode (cls : nat) (fields : list (nat * val))   (* attribute id -> value *)
+| ONode (cls : N) (fields : list (N * val))       (* attribute id -> value *)
 | OList (elems : list val).                       (* list / dict / set: any mutable container *)
 
 Definition heap := list obj.
@@ -39,16 +39,16 @@ Fixpoint hset (h : heap) (l : loc) (o : obj) : heap :=
   | x :: t, S l' => x :: hset t l' o
   end.
 
-Fixpoint get_field (fs : list (nat * val)) (a : nat) : option val :=
+Fixpoint get_field (fs : list (N * val)) (a : N) : option val :=
   match fs with
   | [] => None
-  | (b, v) :: t => if Nat.eqb a b then Some v else get_field t a
+  | (b, v) :: t => if N.eqb a b then Some v else get_field t a
   end.
 
-Fixpoint set_field (fs : list (nat * val)) (a : nat) (v : val) : list (nat * val) :=
+Fixpoint set_field (fs : list (N * val)) (a : N) (v : val) : list (N * val) :=
   match fs with
   | [] => [(a, v)]
-  | (b, w) :: t => if Nat.eqb a b then (b, v) :: t else (b, w) :: set_field t a v
+  | (b, w) :: t => if N.eqb a b then (b, v) :: t else (b, w) :: set_field t a v
   end.
 
 (* the frame: every object of h is still there, unchanged, in h' *)
@@ -57,7 +57,7 @@ Definition frame (h h' : heap) : Prop := forall l o, hget h l = Some o -> hget h
 (* ------------------------------------------------------------------------------------------------ *)
 (** * Part 1: PyHeap — the tree edits of internal_cursors.py *)
 
-Definition step := (nat * option nat)%type.     (* (attribute, index in the list or None) *)
+Definition step := (N * option nat)%type.     (* (attribute, index in the list or None) *)
 Definition path := list step.
 
 (* asdl_adt's generated __init__:  `name = _validate_name(name)` returns `[point_valid(y) for y in val]` for every
@@ -71,7 +71,7 @@ Definition copy_if_list (h : heap) (v : val) : heap * val :=
   | VOpq => (h, v)
   end.
 
-Fixpoint copy_fields (h : heap) (fs : list (nat * val)) : heap * list (nat * val) :=
+Fixpoint copy_fields (h : heap) (fs : list (N * val)) : heap * list (N * val) :=
   match fs with
   | [] => (h, [])
   | (a, v) :: t => let (h1, v') := copy_if_list h v in
@@ -79,11 +79,11 @@ Fixpoint copy_fields (h : heap) (fs : list (nat * val)) : heap * list (nat * val
   end.
 
 (* C(fields...) *)
-Definition mk_node (h : heap) (c : nat) (fs : list (nat * val)) : heap * loc :=
+Definition mk_node (h : heap) (c : N) (fs : list (N * val)) : heap * loc :=
   let (h1, fs1) := copy_fields h fs in alloc h1 (ONode c fs1).
 
 (* node.update(attr = v)  ==  attrs.evolve(node, attr = v)  ==  type(node)(all fields..., attr = v) *)
-Definition node_update (h : heap) (n : loc) (a : nat) (v : val) : heap * option loc :=
+Definition node_update (h : heap) (n : loc) (a : N) (v : val) : heap * option loc :=
   match hget h n with
   | Some (ONode c fs) => let (h', l) := mk_node h c (set_field fs a v) in (h', Some l)
   | _ => (h, None)
@@ -98,7 +98,7 @@ Definition list_of (h : heap) (v : val) : option (list val) :=
   | VOpq => None
   end.
 
-Definition fields_of (h : heap) (v : val) : option (loc * nat * list (nat * val)) :=
+Definition fields_of (h : heap) (v : val) : option (loc * N * list (N * val)) :=
   match v with
   | VRef l => match hget h l with Some (ONode c fs) => Some (l, c, fs) | _ => None end
   | VOpq => None
@@ -179,7 +179,7 @@ Fixpoint resolve (h : heap) (node : val) (p : path) : option val :=
   end.
 
 (* Block._replace.update *)
-Definition block_update (a lo hi : nat) (nodes empty_default : list val) (h : heap) (node : val) : heap * option res :=
+Definition block_update (a : N) (lo hi : nat) (nodes empty_default : list val) (h : heap) (node : val) : heap * option res :=
   match fields_of h node with
   | None => (h, None)
   | Some (n, _, fs) =>
@@ -200,7 +200,7 @@ Definition block_update (a lo hi : nat) (nodes empty_default : list val) (h : he
       end
   end.
 
-Definition replace_block (anchor : path) (a lo hi : nat) (nodes dflt : list val) (h : heap) (root : loc) : heap * option loc :=
+Definition replace_block (anchor : path) (a : N) (lo hi : nat) (nodes dflt : list val) (h : heap) (root : loc) : heap * option loc :=
   root_of (rewrite (block_update a lo hi nodes dflt) anchor h (VRef root)).
 
 (* Gap._insert.update : `stmts + [anchor]` or `[anchor] + stmts` *)
@@ -214,7 +214,7 @@ Definition insert_at (anchor : path) (after : bool) (stmts : list val) (h : heap
   end.
 
 (* Block._wrap *)
-Definition wrap_block (anchor : path) (a lo hi : nat) (cls : nat) (fs : list (nat * val)) (wrap_attr : nat)
+Definition wrap_block (anchor : path) (a : N) (lo hi : nat) (cls : N) (fs : list (N * val)) (wrap_attr : N)
            (h : heap) (root : loc) : heap * option loc :=
   match resolve h (VRef root) anchor with
   | None => (h, None)
@@ -238,7 +238,7 @@ Definition wrap_block (anchor : path) (a lo hi : nat) (cls : nat) (fs : list (na
   end.
 
 (* Block._delete : pass_stmt = [LoopIR.Pass(srcinfo)] ; self._replace([], empty_default=pass_stmt) *)
-Definition delete_block (anchor : path) (a lo hi : nat) (pass_cls : nat) (h : heap) (root : loc) : heap * option loc :=
+Definition delete_block (anchor : path) (a : N) (lo hi : nat) (pass_cls : N) (h : heap) (root : loc) : heap * option loc :=
   let (h1, p) := mk_node h pass_cls [] in
   replace_block anchor a lo hi [] [VRef p] h1 root.
 
@@ -253,7 +253,7 @@ Definition opt_nat_eqb (a b : option nat) : bool :=
 Fixpoint is_before (g b : path) : bool :=
   match g, b with
   | (ga, gi) :: g', (ba, bi) :: b' =>
-      if negb (Nat.eqb ga ba) then false
+      if negb (N.eqb ga ba) then false
       else if negb (opt_nat_eqb gi bi)
            then match gi, bi with Some x, Some y => Nat.ltb x y | _, _ => false end
            else is_before g' b'
@@ -269,19 +269,19 @@ Fixpoint set_last_idx (p : path) (k : nat) : path :=
 
 Definition path_eqb (p q : path) : bool :=
   Nat.eqb (length p) (length q) &&
-  forallb (fun '((a, i), (b, j)) => Nat.eqb a b && opt_nat_eqb i j) (combine p q).
+  forallb (fun '((a, i), (b, j)) => N.eqb a b && opt_nat_eqb i j) (combine p q).
 
 Definition last_step (p : path) : option step := match rev p with s :: _ => Some s | [] => None end.
 
 (* `target in self` for a (non-edge) gap: its anchor node lies inside the block *)
-Definition gap_in_block (anchor : path) (a lo hi : nat) (gap_anchor : path) : bool :=
+Definition gap_in_block (anchor : path) (a : N) (lo hi : nat) (gap_anchor : path) : bool :=
   match last_step gap_anchor with
   | Some (ga, Some gi) =>
-      path_eqb (removelast gap_anchor) anchor && Nat.eqb ga a && Nat.leb lo gi && Nat.ltb gi hi
+      path_eqb (removelast gap_anchor) anchor && N.eqb ga a && Nat.leb lo gi && Nat.ltb gi hi
   | _ => false
   end.
 
-Definition move_block (anchor : path) (a lo hi : nat) (gap_anchor : path) (gap_after : bool) (pass_cls : nat)
+Definition move_block (anchor : path) (a : N) (lo hi : nat) (gap_anchor : path) (gap_after : bool) (pass_cls : N)
            (h : heap) (root : loc) : heap * option loc :=
   (* if target in self: target = self.before() *)
   let '(gap_anchor, gap_after) :=
@@ -318,12 +318,12 @@ Definition move_block (anchor : path) (a lo hi : nat) (gap_anchor : path) (gap_a
   end.
 
 Inductive edit :=
-| EReplaceBlock (anchor : path) (attr lo hi : nat) (nodes : list val)            (* Block._replace(nodes) *)
+| EReplaceBlock (anchor : path) (attr : N) (lo hi : nat) (nodes : list val)            (* Block._replace(nodes) *)
 | EReplaceNode (p : path) (new : val)                                            (* Node._replace(ast), ast not a list *)
 | EInsert (anchor : path) (after : bool) (stmts : list val)                      (* Gap._insert(stmts) *)
-| EDelete (anchor : path) (attr lo hi : nat) (pass_cls : nat)                    (* Block._delete() *)
-| EWrap (anchor : path) (attr lo hi : nat) (cls : nat) (fs : list (nat * val)) (wrap_attr : nat)   (* Block._wrap *)
-| EMove (anchor : path) (attr lo hi : nat) (gap_anchor : path) (gap_after : bool) (pass_cls : nat). (* Block._move *)
+| EDelete (anchor : path) (attr : N) (lo hi : nat) (pass_cls : N)                    (* Block._delete() *)
+| EWrap (anchor : path) (attr : N) (lo hi : nat) (cls : N) (fs : list (N * val)) (wrap_attr : N)   (* Block._wrap *)
+| EMove (anchor : path) (attr : N) (lo hi : nat) (gap_anchor : path) (gap_after : bool) (pass_cls : N). (* Block._move *)
 
 Definition apply_heap (e : edit) (h : heap) (root : loc) : heap * option loc :=
   match e with
@@ -348,7 +348,7 @@ Fixpoint apply_edits (es : list edit) (h : heap) (root : loc) : heap * option lo
 
 (* NOT what the code does — used only for the sensitivity example: Block._replace editing `children` in place
    (children[lo:hi] = nodes) and returning the same root *)
-Definition replace_block_inplace (anchor : path) (a lo hi : nat) (nodes : list val) (h : heap) (root : loc) : heap * option loc :=
+Definition replace_block_inplace (anchor : path) (a : N) (lo hi : nat) (nodes : list val) (h : heap) (root : loc) : heap * option loc :=
   match resolve h (VRef root) anchor with
   | None => (h, None)
   | Some node =>
@@ -370,13 +370,13 @@ Definition replace_block_inplace (anchor : path) (a lo hi : nat) (nodes : list v
 (** * Part 2: ListProg *)
 
 Inductive var :=
-| Loc (n : nat)        (* a local of the current activation *)
-| Glob (n : nat).      (* a variable shared between function bodies: `self.<field>`, a captured variable *)
+| Loc (n : N)          (* a local of the current activation *)
+| Glob (n : N).        (* a variable shared between function bodies: `self.<field>`, a captured variable *)
 
 Inductive elem := EV (x : var) | EO.
 
 Inductive rkind :=
-| RAttr (a : nat)      (* x := y.a *)
+| RAttr (a : N)        (* x := y.a *)
 | RItem.               (* x := y[i]  /  for x in y  /  x = y.pop()  (the element) *)
 
 Inductive akind :=     (* everything that creates a NEW object *)
@@ -384,12 +384,12 @@ Inductive akind :=     (* everything that creates a NEW object *)
 | ASlice (y : var)                         (* y[i:j] *)
 | AConcat (y z : var)                      (* y + z *)
 | ALit (es : list elem)                    (* [e1, ..., en] | comprehension | {..} | set() *)
-| ANode (cls : nat) (fs : list (nat * elem))     (* C(f1 = e1, ...) *)
-| AUpdate (y : var) (fs : list (nat * elem)).    (* y.update(f1 = e1, ...) *)
+| ANode (cls : N) (fs : list (N * elem))         (* C(f1 = e1, ...) *)
+| AUpdate (y : var) (fs : list (N * elem)).      (* y.update(f1 = e1, ...) *)
 
 Inductive mkind :=     (* everything that changes an EXISTING object *)
 | MSetItem | MDelItem | MPop | MAppend | MExtend | MInsert | MRemove | MSort | MReverse | MClear
-| MSetAttr (a : nat).
+| MSetAttr (a : N).
 
 Inductive stmt :=
 | SSkip
@@ -397,8 +397,8 @@ Inductive stmt :=
 | SOpq (x : var)                           (* x := <not a container> *)
 | SRead (x : var) (k : rkind) (y : var)
 | SAlloc (x : var) (k : akind)
-| SMut (lbl : nat) (k : mkind) (x : var) (e : elem)     (* lbl = source line, for diagnostics only *)
-| SCall (x : var) (f : nat) (args : list var)
+| SMut (lbl : N) (k : mkind) (x : var) (e : elem)     (* lbl = source line, for diagnostics only *)
+| SCall (x : var) (f : N) (args : list var)
 | SCallUnk (x : var) (args : list var)     (* callee outside the translated sources: assumed not to mutate its arguments *)
 | SReturn (e : elem)
 | SRaise
@@ -408,24 +408,24 @@ Inductive stmt :=
 | SLoop (b : stmt)                         (* zero or more iterations *)
 | STry (s1 s2 : stmt).                     (* s2 runs if s1 raised *)
 
-Record fdef := mkFdef { params : list nat; body : stmt }.
+Record fdef := mkFdef { params : list N; body : stmt }.
 
 Record prog := mkProg {
   defs : list fdef;       (* function id = position *)
-  gshd : list nat;        (* globals that may hold a reference to a shared object *)
-  scope : list nat;       (* the entry and every function it can reach through SCall *)
-  entry : nat }.
+  gshd : list N;          (* globals that may hold a reference to a shared object *)
+  scope : list N;         (* the entry and every function it can reach through SCall *)
+  entry : N }.
 
 (* ---- concrete semantics *)
 
 Inductive mode := MNormal | MRet (v : val) | MExn | MBrk.
 
-Record state := mkSt { hp : heap; lenv : list (nat * val); genv : list (nat * val); orc : list nat; md : mode }.
+Record state := mkSt { hp : heap; lenv : list (N * val); genv : list (N * val); orc : list nat; md : mode }.
 
-Fixpoint alookup (e : list (nat * val)) (n : nat) : val :=
+Fixpoint alookup (e : list (N * val)) (n : N) : val :=
   match e with
   | [] => VOpq
-  | (m, v) :: t => if Nat.eqb n m then v else alookup t n
+  | (m, v) :: t => if N.eqb n m then v else alookup t n
   end.
 
 Definition getv (st : state) (x : var) : val :=
@@ -448,10 +448,10 @@ Definition next (st : state) : nat * state :=
 
 Definition evale (st : state) (e : elem) : val := match e with EV x => getv st x | EO => VOpq end.
 
-Definition eval_fields (st : state) (fs : list (nat * elem)) : list (nat * val) :=
+Definition eval_fields (st : state) (fs : list (N * elem)) : list (N * val) :=
   map (fun '(a, e) => (a, evale st e)) fs.
 
-Fixpoint set_fields (fs : list (nat * val)) (upd : list (nat * val)) : list (nat * val) :=
+Fixpoint set_fields (fs : list (N * val)) (upd : list (N * val)) : list (N * val) :=
   match upd with [] => fs | (a, v) :: t => set_fields (set_field fs a v) t end.
 
 (* the object built by an allocation (None: the Python expression raises) ; n, m : oracle numbers *)
@@ -503,7 +503,7 @@ Definition apply_mut (k : mkind) (h : heap) (o : obj) (v : val) (n : nat) : opti
   | _, _ => None
   end.
 
-Fixpoint bind (ps : list nat) (vs : list val) : list (nat * val) :=
+Fixpoint bind (ps : list N) (vs : list val) : list (N * val) :=
   match ps, vs with
   | p :: ps', v :: vs' => (p, v) :: bind ps' vs'
   | _, _ => []
@@ -549,7 +549,7 @@ Fixpoint exec (fuel : nat) (P : list fdef) (s : stmt) (st : state) : state :=
               | VOpq => set_md st1 MExn
               end
           | SCall x g args =>
-              match nth_error P g with
+              match nth_error P (N.to_nat g) with
               | None => set_md st MExn
               | Some d =>
                   let st0 := mkSt (hp st) (bind (params d) (map (getv st) args)) (genv st) (orc st) MNormal in
@@ -592,27 +592,27 @@ Fixpoint exec (fuel : nat) (P : list fdef) (s : stmt) (st : state) : state :=
 
 (* run the entry function on a heap and argument values; the result is the final heap *)
 Definition run (P : prog) (fuel : nat) (o : list nat) (h : heap) (args : list val) : heap :=
-  match nth_error (defs P) (entry P) with
+  match nth_error (defs P) (N.to_nat (entry P)) with
   | None => h
   | Some d => hp (exec fuel (defs P) (body d) (mkSt h (bind (params d) args) [] o MNormal))
   end.
 
 (* ---- the static analysis *)
 
-Definition aset := list nat.
+Definition aset := list N.
 
-Fixpoint mem (n : nat) (X : aset) : bool :=
-  match X with [] => false | m :: t => Nat.eqb n m || mem n t end.
+Fixpoint mem (n : N) (X : aset) : bool :=
+  match X with [] => false | m :: t => N.eqb n m || mem n t end.
 
-Definition addn (n : nat) (X : aset) : aset := if mem n X then X else n :: X.
+Definition addn (n : N) (X : aset) : aset := if mem n X then X else n :: X.
 Definition union (X T : aset) : aset := fold_right addn X T.
-Fixpoint remn (n : nat) (X : aset) : aset :=
-  match X with [] => [] | m :: t => if Nat.eqb n m then remn n t else m :: remn n t end.
+Fixpoint remn (n : N) (X : aset) : aset :=
+  match X with [] => [] | m :: t => if N.eqb n m then remn n t else m :: remn n t end.
 Definition subset (X T : aset) : bool := forallb (fun n => mem n T) X.
 
 Inductive viol :=
-| VMut (x : var) (lbl : nat)   (* the statement at source line lbl may mutate an object that existed before the call *)
-| VGlob (g : nat)       (* a maybe-shared reference is stored in a global declared fresh *)
+| VMut (x : var) (lbl : N)   (* the statement at source line lbl may mutate an object that existed before the call *)
+| VGlob (g : N)       (* a maybe-shared reference is stored in a global declared fresh *)
 | VUnstable.            (* the loop invariant computed for a loop is not stable *)
 
 (* may x hold a reference to a shared (pre-existing) object? *)
@@ -625,12 +625,12 @@ Definition setc (gsh : aset) (x : var) (c : bool) (X : aset) : aset * list viol 
   | Glob g => (X, if c && negb (mem g gsh) then [VGlob g] else [])
   end.
 
-Definition lvar (x : var) : list nat := match x with Loc n => [n] | Glob _ => [] end.
+Definition lvar (x : var) : list N := match x with Loc n => [n] | Glob _ => [] end.
 
 (* locals to which a statement may assign a value that is possibly shared (everything except a new object or a
    non-container); a local outside this list is, at every intermediate point of the statement, either unchanged
    or holds a new object *)
-Fixpoint assigned (s : stmt) : list nat :=
+Fixpoint assigned (s : stmt) : list N :=
   match s with
   | SAssign x _ | SRead x _ _ | SCall x _ _ | SCallUnk x _ => lvar x
   | SSeq a b | SIf a b | STry a b => assigned a ++ assigned b
@@ -671,7 +671,7 @@ Fixpoint an (gsh : aset) (s : stmt) (X : aset) : aset * list viol :=
       (union X1 X2, v1 ++ v2)
   end.
 
-Fixpoint calls (s : stmt) : list nat :=
+Fixpoint calls (s : stmt) : list N :=
   match s with
   | SCall _ f _ => [f]
   | SSeq a b | SIf a b | STry a b => calls a ++ calls b
@@ -682,8 +682,8 @@ Fixpoint calls (s : stmt) : list nat :=
 Definition nullb {A : Type} (l : list A) : bool := match l with [] => true | _ => false end.
 
 (* parameters are shared: a function is analysed once, for every caller *)
-Definition fun_ok (ds : list fdef) (gsh scp : aset) (f : nat) : bool :=
-  match nth_error ds f with
+Definition fun_ok (ds : list fdef) (gsh scp : aset) (f : N) : bool :=
+  match nth_error ds (N.to_nat f) with
   | None => false
   | Some d => nullb (snd (an gsh (body d) (params d))) && forallb (fun g => mem g scp) (calls (body d))
   end.
@@ -695,14 +695,39 @@ Definition may_mutate_shared (P : prog) : bool := negb (prog_ok P).
 
 (* ---- inference of the shared globals (any result is sound: prog_ok re-checks it) *)
 
-Definition glob_viols (vs : list viol) : list nat :=
+Definition glob_viols (vs : list viol) : list N :=
   flat_map (fun v => match v with VGlob g => [g] | _ => [] end) vs.
 
 Definition infer_step (ds : list fdef) (gsh : aset) : aset :=
   fold_left (fun acc d => union acc (glob_viols (snd (an gsh (body d) (params d))))) ds gsh.
 
-Definition infer_gsh (rounds : nat) (ds : list fdef) : aset := iter_n rounds (infer_step ds) [].
+Fixpoint infer_gsh_from (rounds : nat) (ds : list fdef) (gsh : aset) : aset :=
+  match rounds with
+  | 0 => gsh
+  | S r => let g' := infer_step ds gsh in
+           if Nat.eqb (length g') (length gsh) then gsh else infer_gsh_from r ds g'
+  end.
+
+Definition infer_gsh (rounds : nat) (ds : list fdef) : aset := infer_gsh_from rounds ds [].
 
 (* diagnostics for the harness: the violations of one function *)
-Definition fun_viols (ds : list fdef) (gsh : aset) (f : nat) : list viol :=
-  match nth_error ds f with None => [VUnstable] | Some d => snd (an gsh (body d) (params d)) end.
+Definition fun_viols (ds : list fdef) (gsh : aset) (f : N) : list viol :=
+  match nth_error ds (N.to_nat f) with None => [VUnstable] | Some d => snd (an gsh (body d) (params d)) end.
+
+(* ---- the same check with the per-function analysis results tabulated once (what the generated examples evaluate) *)
+
+Definition viol_table (ds : list fdef) (gsh : aset) : list (list viol) :=
+  map (fun d => snd (an gsh (body d) (params d))) ds.
+
+Definition fun_ok_t (ds : list fdef) (tbl : list (list viol)) (scp : aset) (f : N) : bool :=
+  match nth_error ds (N.to_nat f), nth_error tbl (N.to_nat f) with
+  | Some d, Some vs => nullb vs && forallb (fun g => mem g scp) (calls (body d))
+  | _, _ => false
+  end.
+
+Definition prog_ok_t (tbl : list (list viol)) (P : prog) : bool :=
+  mem (entry P) (scope P) && forallb (fun_ok_t (defs P) tbl (scope P)) (scope P).
+
+(* a helper = the whole translated program, entered at one function, with the functions it can reach *)
+Definition helper (ds : list fdef) (gsh : aset) (se : list N * N) : prog := mkProg ds gsh (fst se) (snd se).
+
